@@ -308,13 +308,15 @@ func genesisUse(files []File, fields []string) (reads, writes []string) {
 			if !ok || fd.Body == nil {
 				continue
 			}
+			// prefer the package-level function over the AppModule method that wraps it
+			better := func(cur *ast.FuncDecl) bool { return cur == nil || (cur.Recv != nil && fd.Recv == nil) }
 			switch fd.Name.Name {
 			case "InitGenesis":
-				if initFn == nil {
+				if better(initFn) {
 					initFn = fd
 				}
 			case "ExportGenesis":
-				if expFn == nil {
+				if better(expFn) {
 					expFn = fd
 				}
 			case "NewGenesisState":
@@ -414,7 +416,7 @@ func genesisUse(files []File, fields []string) (reads, writes []string) {
 
 func genCfg(repo string) {
 	rid := "RidUnknown"
-	if fd := Funcs(ParseDir(repo + "/x/oracle"))["InitGenesis"]; fd != nil && fd.Body != nil {
+	if fd := plainFunc(ParseDir(repo+"/x/oracle"), "InitGenesis"); fd != nil && fd.Body != nil {
 		body := Nospace(fd.Body)
 		switch {
 		case strings.Contains(body, "keeper.RewardsID.Set(ctx,data.Rewards[len(data.Rewards)-1].Id+1)"):
@@ -442,4 +444,16 @@ func genCfg(repo string) {
 	}
 	fmt.Printf("Definition current_cfg : cfg := {| c_rid := %s; c_tf_keeps_bank_md := %s |}.\n", rid, CoqBool(keeps))
 	fmt.Printf("(* unsafeGenesisInsertDenom: %s *)\n", strings.ReplaceAll(src, "*)", "* )"))
+}
+
+// plainFunc: the package-level function (no receiver) of that name
+func plainFunc(files []File, name string) *ast.FuncDecl {
+	for _, fl := range files {
+		for _, d := range fl.F.Decls {
+			if fd, ok := d.(*ast.FuncDecl); ok && fd.Recv == nil && fd.Name.Name == name {
+				return fd
+			}
+		}
+	}
+	return nil
 }
